@@ -187,6 +187,13 @@ def constructive(rng, case, idx):
         if not ok:
             continue
         tb = rng.choice(['L', 'g', 'mol'])
+        # (round 17, fourth wave) ... or, for concentrations and a total, in activity units when the solutes bring an enzyme and
+        # the solvent portion holds none (the concentrations fix the proportions, the total activity fixes the size). Drawn
+        # from a generator of its own: the requests of the earlier rounds stay what they were.
+        import random as _random
+        if spec == 'conc+total' and per_u_ok and _random.Random(f'U-total:{concs!r}').random() < 0.25:
+            tb = 'U'
+            M.bucket('C05/constructive/total_in_activity_units')
         if R.measure(target, tb) <= 0:
             tb = 'g'
         total = spell(rng, R.measure(target, tb), tb, exact=True)
